@@ -132,15 +132,21 @@ namespace occa {
     scope.add(iteratorLengthName, indices.length());
     scope.add(iteratorPtrName, indices);
 
+    // The index is looked up through a define instead of a declaration at the
+    // top of the loop body: nested @outer / @tile loops have to stay perfectly
+    // nested, otherwise @tile cannot move its @outer loop out of the @inner one
+    //   idx -> idcPtr[i]
+    scope.props["defines"][iteratorName] = (
+      iteratorPtrName + "[" + iteratorIndexName + "]"
+    );
+
     std::stringstream ss;
 
     // for (int i = 0; i < N; i += 1; @attr) {
-    //   idx = idcPtr[i];
     ss << "for (int " << iteratorIndexName << " = 0;"
        << " " << iteratorIndexName << " < " << iteratorLengthName << ";"
        << " ++" << iteratorIndexName << ";"
-       << " " << forAttribute << ") {"
-       << "  const int " << iteratorName << " = " << iteratorPtrName << "[" << iteratorIndexName << "];";
+       << " " << forAttribute << ") {";
 
     return ss.str();
   }
